@@ -192,6 +192,20 @@ def judge1(mode, src, e, ts):
     # the fragment's tokens must all belong to the result (nothing of it may have been taken for wrapper syntax)
     k = e.k
     nodes = exp if isinstance(exp, list) else [exp]
+    if mode in ('withitem', '_withitems') and ts:
+        # the embedding `with (...)` makes a bare yield / walrus legal as ITS parenthesized expression; as a with-item (`with <items>: pass`, the grammar's `expression`) it needs parentheses of its own
+        lines_ = src.split('\n')
+        b_ = lambda t: (t.start[0], len(lines_[t.start[0] - 1][:t.start[1]].encode()))
+        be_ = lambda t: (t.end[0], len(lines_[t.end[0] - 1][:t.end[1]].encode()))
+        for it in nodes:
+            ce = getattr(it, 'context_expr', None)
+            if isinstance(ce, (ast.NamedExpr, ast.Yield, ast.YieldFrom)):
+                s_ = (ce.lineno - e.k, ce.col_offset)
+                en_ = (ce.end_lineno - e.k, ce.end_col_offset)
+                prev = [t for t in ts if be_(t) <= s_]
+                nxt = [t for t in ts if b_(t) >= en_]
+                if not (prev and prev[-1].string == '(' and nxt and nxt[0].string == ')'):
+                    return ('invalid', 'a yield / named expression as with-item must be parenthesized')
     if nodes and all(hasattr(n, 'lineno') for n in nodes) and ts and mode not in ('exec',):
         first, last = nodes[0], nodes[-1]
         if mode in ('_decorator_list', '_comprehension_ifs'):
@@ -293,19 +307,22 @@ HOSTILE = {
                   '**d, k=1', 'a\n,\nk=1\n,', ')(', 'a, # c\n b=1 # d\n', 'é=1,\n*ü'],
     '_arglike': ['f(a ,\n b)', 'f(a,\n b),', 'k=f(a,\n b)\n,', '*f(a ,\n b)', 'a for x in y', '(a for x in y)', '*a', '**k', 'k=v', 'a, b', 'a=b, c', '', 'a)(b', ')(', '*not a', 'k=x for x in y', 'a := b', 'yield', '(yield)', 'a,', 'k=v,'],
     'keyword': ['a=(1 ,\n 2)', 'a=(1,\n 2),', 'a=(1,\n 2)\n,', 'a=1', 'a=1, b=2', '**k', 'a', 'a=1)(b=2', 'a=1), _(b=2', '', 'a=(yield)', 'a = 1,', 'a=1 # c', '*a', 'a==1', 'a=x for x in y'],
-    'arguments': [')->(', 'a)->(b', 'a, b=1, /, c, *, d, **e', '', '*', 'a=', 'a: int=3', '*a: *b', '): pass\ndef g(', 'a,', '/', 'self, /,', '**k,'],
+    'arguments': ['a: pass #', 'a): pass #', ')->(', 'a)->(b', 'a, b=1, /, c, *, d, **e', '', '*', 'a=', 'a: int=3', '*a: *b', '): pass\ndef g(', 'a,', '/', 'self, /,', '**k,'],
     'arguments_lambda': [': lambda', 'a: b', 'a, *b, c=1, **d', '', 'a=1: None)+(lambda', 'a,', '*'],
-    'arg': ['a: (b ,\n c)', 'a: (b,\n c),', 'a: (b,\n c)\n,', 'a: *b, **c', 'a: *b, c', 'a: *b, *, c', 'a: *b = 1', 'a: *b, /', 'a: *b,', 'a', 'a: int', 'a=1', 'a, b', '*a', 'a: *b', '', 'a)->(b', 'a: (x := 1)'],
+    'arg': ['a: pass #', 'a: (b ,\n c)', 'a: (b,\n c),', 'a: (b,\n c)\n,', 'a: *b, **c', 'a: *b, c', 'a: *b, *, c', 'a: *b = 1', 'a: *b, /', 'a: *b,', 'a', 'a: int', 'a=1', 'a, b', '*a', 'a: *b', '', 'a)->(b', 'a: (x := 1)'],
     'Import_name': ['a', 'a.b as c', '*', 'a, b', 'a as b, c', '', 'a;b', 'a.b.c', '(a)', 'a as'],
     'ImportFrom_name': ['a', 'a as b', '*', 'a.b', 'a, b', '', '(a)', 'a)\nfrom . import (b'],
     '_Import_names': ['a, b.c as d', 'a,', '', '*', 'a;import b'],
     '_ImportFrom_names': ['a, b as c', '*', 'a,', '', '*, a', 'a)\nfrom . import (b'],
-    'withitem': ['(a ,\n b) as c', 'a as (b ,\n c)', 'a as (b,\n c),', 'a as (b,\n c)\n,', 'a', 'a as b', 'a, b', '(a, b)', '(a, b) as c', 'a as b,', '', 'a)as(b', 'a): pass\nwith (b', 'x for x in y', '(yield)', 'yield', 'a := b', '(a) as (b)', 'a as (b, c)', 'a as b.c', '(a as b)'],
-    '_withitems': ['a) as (b', 'a)as(b', 'a) as (b,', 'f(a)) as (b', 'a, b', 'a as b, c as d', '(a, b)', '(a), (b)', '', 'a,', 'a), (b', '(a as b), c', 'a as b)if(c'],
+    'withitem': ['(a ,\n b) as c', 'a as (b ,\n c)', 'a as (b,\n c),', 'a as (b,\n c)\n,', 'a', 'a as b', 'a, b', '(a, b)', '(a, b) as c', 'a as b,', '', 'a)as(b', 'a): pass\nwith (b', 'x for x in y', '(yield)', 'yield', 'a := b', '(a) as (b)', 'a as (b, c)', 'a as b.c', '(a as b)',
+                 'yield from x', 'yield x', '(yield from x)', 'yield from x as y', 'yield as y', 'a := b as c', '(a := b) as c', 'lambda: x', 'lambda: x as y', 'await a', 'await a as b', '*a', '*a as b', 'a if b else c', 'not a as b', 'a for a in b as c'],
+    '_withitems': ['a) as (b', 'a)as(b', 'a) as (b,', 'f(a)) as (b', 'a, b', 'a as b, c as d', '(a, b)', '(a), (b)', '', 'a,', 'a), (b', '(a as b), c', 'a as b)if(c', 'yield from x', 'a, yield from x', 'yield from x, a', 'yield x, a', 'a, b := c', 'a, (yield from x)', 'a as b, yield', 'lambda: x, a', '*a, b', 'a, await b as c'],
     'ExceptHandler': ['except: pass', 'except E as e:\n    pass', 'except* E: pass', 'except: pass\nexcept: pass', 'except: pass\nelse: pass', 'finally: pass', '', 'except (A, B): pass',
                       ' except: pass', 'except: pass\nfinally: pass\ntry: pass'],
     '_ExceptHandlers': ['except A: pass\nexcept B: pass', '', 'except: pass\nelse: pass', 'except* A: pass\nexcept* B: pass', 'except A: pass\nexcept* B: pass'],
-    'pattern': ['( (a)),\nb', '(\n (a)\n),\nb', '((a)),\nb', '( ( (a) ) ),\n(b)', 'a,\n"é"', '"é",\n*ü', 'ñ,\n"é",', '"é" |\n"ü"', 'a', '1', 'a | b', '[a, *b]', 'a, b', '*a', '{1: a, **r}', 'C(x, y=1)', 'a as b', '(a)', '', 'a) if (b', 'a): pass\n case (b', 'a if b', '1 + 2j', '-1', 'a.b', '_', '[a]if[b]', 'x]if['],
+    'pattern': ['( (a)),\nb', '(\n (a)\n),\nb', '((a)),\nb', '( ( (a) ) ),\n(b)', 'a,\n"é"', '"é",\n*ü', 'ñ,\n"é",', '"é" |\n"ü"', 'a', '1', 'a | b', '[a, *b]', 'a, b', '*a', '{1: a, **r}', 'C(x, y=1)', 'a as b', '(a)', '', 'a) if (b', 'a): pass\n case (b', 'a if b', '1 + 2j', '-1', 'a.b', '_', '[a]if[b]', 'x]if[',
+                # text that ends the wrapper's header itself and hides the wrapper's own ': pass' behind a comment
+                'a: pass #', '1: pass # c', 'a | b: pass  #', '[a, b]: pass#', 'a: pass # c\n', 'a: x = 1 #', 'a: pass; y #', 'a if b: pass #'],
     'comprehension': ['(x) for a in b', '+ 1 for a in b', '.y for a in b', '[0] for a in b', 'if z else w for a in b', ', q for a in b', 'for a in b', 'for a in b if c', 'async for a in b', 'for a in b for c in d', 'if a', '', 'for a in b]+[c', 'for a, b in c if d if e', 'for a in b,'],
     '_comprehensions': ['.y for a in b', '(x) for a in b', '+ 1 for a in b', '[0] for a in b', 'or z for a in b', 'if q else r for a in b', 'for a in b for c in d', '', 'if x for a in b', 'for a in b] + [c for d in e'],
     '_comprehension_ifs': ['.y if a', '(x) if a', '+ 1 if a', 'or z if a', 'if a if b', '', 'for a in b', 'if a for b in c', 'if a] + [b'],
